@@ -29,6 +29,23 @@ fn alpha(tx: bool) -> Alpha {
     a
 }
 
+/// Background work in the alphabet: with manual journal persist the flush worker is the one whose `pos()` call
+/// flushes buffered journal bytes — a failure there has no caller to report to, but must still stop all writes.
+fn alpha_maint() -> Alpha {
+    let mut a = Alpha::empty();
+    a.ins = vec![(0, 0, 0), (1, 0, 1)];
+    a.batches = vec![vec![Item { ks: 0, k: 1, v: Some(1) }, Item { ks: 1, k: 0, v: Some(0) }]];
+    a.rotate = vec![0];
+    a.steps = true;
+    a.jrot = true;
+    a
+}
+
+/// The operations the property names ("no write of any kind is acknowledged"): maintenance requests are not writes.
+fn is_write(op: &Op) -> bool {
+    matches!(op, Op::Ins { .. } | Op::Rem { .. } | Op::Clear { .. } | Op::Batch(_) | Op::BatchD(..) | Op::Tx(_) | Op::TxD(..) | Op::Persist { .. })
+}
+
 const PROBES: [&str; 6] = ["ins x.a=2", "rem x.ab", "clear y", "batch [x.b=1 y.a=1]", "persist Buffer", "persist SyncAll"];
 
 // ------------------------------------------------------------------ E3: several writer threads
@@ -37,6 +54,8 @@ pub struct FaultBody {
     /// the k-th journal operation after the threads start fails
     pub fail_at: i64,
     pub writers: usize,
+    /// what writer t does: 'i' insert, 'b' batch commit, 'c' clear, 'r' remove (missing = insert)
+    pub kinds: &'static str,
 }
 
 fn shim_arm(k: i64, errno: i32) -> bool {
@@ -84,10 +103,23 @@ impl crate::e3::Body for FaultBody {
         const KEYS: [&str; 3] = ["a", "b", "c"];
         for t in 0..n {
             let (ks, done, log) = (ks.clone(), done.clone(), log.clone());
+            let kind = self.kinds.as_bytes().get(t).copied().unwrap_or(b'i');
+            let dbc = db.clone();
             handles.push(spawn_client(NAMES[t], move || {
                 let call = sched().now();
                 client_point("client.call");
-                let ok = ks.insert(KEYS[t], "1").is_ok();
+                let ok = match kind {
+                    b'b' => {
+                        let mut b = dbc.batch();
+                        b.insert(&ks, KEYS[t], "1");
+                        b.insert(&ks, "z", "1");
+                        b.commit().is_ok()
+                    }
+                    b'c' => ks.clear().is_ok(),
+                    b'r' => ks.remove(KEYS[t]).is_ok(),
+                    _ => ks.insert(KEYS[t], "1").is_ok(),
+                };
+                drop(dbc);
                 let ret = sched().now();
                 log.lock().unwrap().push((t, call, ret, ok));
                 drop(ks);
@@ -194,12 +226,18 @@ impl crate::e3::Body for WorkerFaultBody {
 pub fn bodies(tier: &str) -> Vec<crate::e3::BodySpec> {
     let q = tier == "quick";
     let b = |body: FaultBody, bound: usize, secs: f64| crate::e3::BodySpec { body: std::sync::Arc::new(body), bound, secs };
-    let mut v = vec![b(FaultBody { name: "2 writers, 1st journal write fails", fail_at: 1, writers: 2 }, 2, if q { 5.0 } else { 120.0 })];
+    let mut v = vec![
+        b(FaultBody { name: "2 writers, 1st journal write fails", fail_at: 1, writers: 2, kinds: "ii" }, 2, if q { 3.0 } else { 120.0 }),
+        b(FaultBody { name: "insert || batch commit, 1st journal write fails", fail_at: 1, writers: 2, kinds: "ib" }, 2, if q { 3.0 } else { 120.0 }),
+        b(FaultBody { name: "clear || remove, 1st journal write fails", fail_at: 1, writers: 2, kinds: "cr" }, 2, if q { 3.0 } else { 120.0 }),
+    ];
     for k in if q { vec![1i64, 2] } else { vec![1, 2, 3, 4] } {
         v.push(crate::e3::BodySpec { body: std::sync::Arc::new(WorkerFaultBody { fail_at: k }), bound: if q { 0 } else { 1 }, secs: if q { 3.0 } else { 60.0 } });
     }
     if !q {
-        v.push(b(FaultBody { name: "3 writers, 2nd journal write fails", fail_at: 2, writers: 3 }, 2, 200.0));
+        v.push(b(FaultBody { name: "3 writers, 2nd journal write fails", fail_at: 2, writers: 3, kinds: "iii" }, 2, 200.0));
+        v.push(b(FaultBody { name: "batch || batch || insert, 2nd journal write fails", fail_at: 2, writers: 3, kinds: "bbi" }, 2, 200.0));
+        v.push(b(FaultBody { name: "batch || clear, 1st journal write fails", fail_at: 1, writers: 2, kinds: "bc" }, 3, 200.0));
     }
     v
 }
@@ -213,6 +251,8 @@ pub fn run(tier: &str) -> i32 {
         ("auto-persist", d.clone(), false, if q { 2 } else { 3 }),
         ("manual-persist", Cfg { manual_persist: true, ..d.clone() }, false, if q { 2 } else { 3 }),
         ("single-writer-tx", Cfg { kind: DbKind::SingleWriter, ..d.clone() }, true, if q { 1 } else { 2 }),
+        ("manual-persist+maintenance", Cfg { manual_persist: true, ..d.clone() }, false, if q { 3 } else { 4 }),
+        ("auto-persist+maintenance", d.clone(), false, if q { 3 } else { 4 }),
     ];
     // jobs: (cfg index, program, n, errno, short)
     struct Job {
@@ -226,8 +266,11 @@ pub fn run(tier: &str) -> i32 {
     let mut fulls: Vec<(usize, Vec<Op>)> = vec![];
     let mut programs = 0;
     for (ci, (_name, cfg, tx, depth)) in cfgs.iter().enumerate() {
-        let prop = SeqProp::new("C13", cfg.clone(), alpha(*tx));
+        let prop = SeqProp::new("C13", cfg.clone(), if _name.ends_with("+maintenance") { alpha_maint() } else { alpha(*tx) });
         for prog in leaves(&prop, *depth) {
+            if _name.ends_with("+maintenance") && !prog.iter().any(|o| matches!(o, Op::Step { .. })) {
+                continue;
+            }
             programs += 1;
             let mut full = prog.clone();
             for p in PROBES {
@@ -258,7 +301,8 @@ pub fn run(tier: &str) -> i32 {
     });
     let mut jobs = jobs_m.into_inner().unwrap();
     // deterministic order (shortest programs first, then by text)
-    jobs.sort_by_key(|j| (j.prog.len(), j.ci, j.prog.iter().map(|o| o.to_string()).collect::<Vec<_>>().join(";"), j.n, j.errno, j.short));
+    // (programs with background work need two more steps to get there: ranked as if they were two shorter)
+    jobs.sort_by_key(|j| (j.prog.len() - if j.ci >= 3 { 2 } else { 0 }, j.ci, j.prog.iter().map(|o| o.to_string()).collect::<Vec<_>>().join(";"), j.n, j.errno, j.short));
     // the injection budget starts once the job list exists
     let deadline = Instant::now() + Duration::from_secs_f64(if q { 30.0 } else { 1100.0 });
     let findings: Mutex<Vec<Finding>> = Mutex::new(vec![]);
@@ -311,7 +355,18 @@ pub fn run(tier: &str) -> i32 {
         let mut key = String::new();
         if fi < run.acks.len() {
             let short_recovered = job.short.is_some(); // write_all retries the remainder: no error is a correct outcome
-            if results[fi] {
+            // a fault inside background work has no caller to report to: whatever the step returns, it counts as
+            // "the failure happened" and every later write must be refused
+            let background = matches!(job.prog[fi], Op::Step { .. });
+            if background && !short_recovered {
+                for j in fi + 1..results.len() {
+                    if results[j] && is_write(&job.prog[j]) {
+                        report("not_fail_stop.after_background_failure", format!("journal {} #{} failed with errno {} inside `{}` (background work), yet `{}` (op {j}) was acknowledged afterwards", fev.call, job.n, job.errno, job.prog[fi], job.prog[j]));
+                        return;
+                    }
+                }
+                key = "background_fail_stop".into();
+            } else if results[fi] {
                 // the call during which the fault fired returned Ok
                 let buffered = fev.call == "write" && cfg.manual_persist; // cannot happen: the OS write is issued by this very call
                 let _ = buffered;
@@ -321,10 +376,10 @@ pub fn run(tier: &str) -> i32 {
                 }
                 key = "short_write_retried".into();
             }
-            if !results[fi] {
+            if !results[fi] && !background {
                 // fail-stop: every later operation must fail
                 for j in fi + 1..results.len() {
-                    if results[j] {
+                    if results[j] && is_write(&job.prog[j]) {
                         report("not_fail_stop", format!("after the failure during `{}` (op {fi}), `{}` (op {j}) was acknowledged", job.prog[fi], job.prog[j]));
                         return;
                     }
